@@ -213,6 +213,13 @@ CApiFail == /\ cpc = "Call" /\ MayFail
             /\ cpc' = (IF FixedOrder THEN "SetFailedFirst" ELSE "FailBatch") /\ ci' = 1
             /\ UNCHANGED <<mainQ, overflowQ, batch, total, token, beTok, failedFlag, evState, calls, oversizeParked>> /\ CUnch
 
+\* the call succeeded but its answer is paginated and fetching the next page fails: the backend has applied the batch, the
+\* consumer nevertheless takes the failure path (nobody of this batch has been released yet)
+CPageFail == /\ cpc = "Rel" /\ ci = 1 /\ MayFail /\ ~apiFailed
+             /\ apiFailed' = TRUE
+             /\ cpc' = (IF FixedOrder THEN "SetFailedFirst" ELSE "FailBatch")
+             /\ UNCHANGED <<mainQ, overflowQ, batch, total, ci, token, beTok, failedFlag, evState, calls, oversizeParked>> /\ CUnch
+
 \* after the response was merged: completion_event.set() for each element of the batch
 CRel == /\ cpc = "Rel"
         /\ IF ci <= Len(batch)
@@ -256,7 +263,7 @@ CSetFailed == /\ cpc = "SetFailed"
               /\ UNCHANGED <<mainQ, overflowQ, batch, total, ci, token, beTok, evState, calls, apiFailed, oversizeParked>> /\ CUnch
 
 CStep == CTop \/ COvGet \/ COvPutBack \/ COvEnd \/ CFirstGet \/ CFirstStopped \/ CWinGet \/ CWinToOverflow \/ CWinClose
-         \/ CApiOk \/ CApiFail \/ CRel \/ CSetFailedFirst \/ CFailBatch \/ CFailOv \/ CFailMain \/ CSetFailed
+         \/ CApiOk \/ CApiFail \/ CPageFail \/ CRel \/ CSetFailedFirst \/ CFailBatch \/ CFailOv \/ CFailMain \/ CSetFailed
 
 Terminated == cpc = "Exited" /\ AllProducersDone
 
